@@ -229,9 +229,9 @@ func (p *plug) metric(name string) float64 {
 }
 
 type dumpEntry struct {
-	key                        []byte
-	stored, msgExp, cacheExp   int64
-	msg                        []byte
+	key                      []byte
+	stored, msgExp, cacheExp int64
+	msg                      []byte
 }
 
 func (p *plug) load(es []dumpEntry) int {
@@ -292,12 +292,12 @@ func (p *plug) dump() ([]dumpEntry, int) {
 // ---------- sequence cases ----------
 
 type opT struct {
-	kind         string // load | exec | dump | wait
-	k            int
-	age, ml, cl  int64
-	m            *msgT // load: stored message; exec: reply the plugin sees after the rest of the chain (nil = none)
-	natural      *msgT // exec: reply handed to the context as it is (its last OPT is taken away; m is what remains)
-	wait         int64
+	kind        string // load | exec | dump | wait
+	k           int
+	age, ml, cl int64
+	m           *msgT // load: stored message; exec: reply the plugin sees after the rest of the chain (nil = none)
+	natural     *msgT // exec: reply handed to the context as it is (its last OPT is taken away; m is what remains)
+	wait        int64
 }
 
 func (o opT) coq() string {
@@ -939,7 +939,7 @@ func genWait(r *hx.RNG, id string) seqCase {
 
 // ---------- catalogue ----------
 
-func rr(sec int, ttl uint32) rrT { return rrT{sec, false, ttl} }
+func rr(sec int, ttl uint32) rrT  { return rrT{sec, false, ttl} }
 func opt(sec int, ttl uint32) rrT { return rrT{sec, true, ttl} }
 
 func catalogue() []seqCase {
@@ -1003,12 +1003,12 @@ func catalogue() []seqCase {
 		store(0, msgT{rc, false, nil})
 	}
 	for _, t := range []uint32{0, 1, 2, 299, 300, 301, 4294967295} {
-		store(0, msgT{0, false, []rrT{rr(1, t)}})                      // empty answer
-		store(0, msgT{0, false, []rrT{rr(0, t)}})                      // answer
-		store(7, msgT{0, false, []rrT{rr(0, t), rr(2, 4294967295)}})   // lazy
-		store(7, msgT{0, false, []rrT{rr(1, t)}})                      // lazy does not apply to empty answers
-		store(0, msgT{0, false, []rrT{rr(0, 500), opt(2, t)}})         // OPT TTL is not a TTL
-		store(0, msgT{0, false, []rrT{opt(0, 5), rr(1, t)}})           // an OPT in the answer section counts as an answer
+		store(0, msgT{0, false, []rrT{rr(1, t)}})                    // empty answer
+		store(0, msgT{0, false, []rrT{rr(0, t)}})                    // answer
+		store(7, msgT{0, false, []rrT{rr(0, t), rr(2, 4294967295)}}) // lazy
+		store(7, msgT{0, false, []rrT{rr(1, t)}})                    // lazy does not apply to empty answers
+		store(0, msgT{0, false, []rrT{rr(0, 500), opt(2, t)}})       // OPT TTL is not a TTL
+		store(0, msgT{0, false, []rrT{opt(0, 5), rr(1, t)}})         // an OPT in the answer section counts as an answer
 	}
 	store(0, msgT{0, false, []rrT{opt(2, 0)}})
 	store(0, msgT{3, false, []rrT{rr(1, 0)}})
